@@ -45,12 +45,12 @@ Bytes fold_values(int mfunc, const Bytes &a, const Bytes &b)
 	default: return union_values(a, b);
 	}
 }
-static MergeCtx g_stateless[MF_N];
+// constant after static initialisation: pool workers of several callers read it concurrently
+static MergeCtx make_stateless(int f) { MergeCtx m; m.mfunc = f; m.stateless = true; return m; }
+static const MergeCtx g_stateless[MF_N] = { make_stateless(0), make_stateless(1), make_stateless(2), make_stateless(3), make_stateless(4) };
 void *stateless_merge_ctx(int mfunc)
 {
-	MergeCtx *m = &g_stateless[mfunc % MF_N];
-	m->mfunc = mfunc % MF_N; m->stateless = true;
-	return m;
+	return const_cast<MergeCtx *>(&g_stateless[((mfunc % MF_N) + MF_N) % MF_N]);
 }
 void merge_union_cb(void *clos, const uint8_t *key, size_t len_key, const uint8_t *v0, size_t l0,
 		    const uint8_t *v1, size_t l1, uint8_t **out, size_t *lout)
